@@ -333,3 +333,456 @@ def check_C17(chk):
                             {"p": "passes", "f": "failures", "s": "skips", "e": "exceptions", "exc_tests": "tests with exceptions",
                              "fail_tests": "tests with failures"}[k], ra, ca[k], rb, cb[k]), rp)
     return chk.finish()
+
+
+# ---------------------------------------------------------------------------------------
+# C02: a dying test is one exception and harms nobody
+# ---------------------------------------------------------------------------------------
+HOWS = [("sig", 11), ("sig", 9), ("sig", 6), ("sig", 15), ("sig", 13), ("exit", 0), ("_exit", 0)]
+
+
+def kill_variants(chk, root, full):
+    """(tree copy with one test killed at one instrumented point in one way)"""
+    import copy
+    res = []
+    tests = [t for s, t in root.tests() if not t.skip]
+    if not tests:
+        return res
+    targets = tests if full else [chk.rng.choice(tests)]
+    for t in targets:
+        points = [(p, 0) for p in gen_c.FRAMEWORK_POINTS]
+        if all(a[0] == "c" for a in t.body) and not t.setup and not t.teardown:
+            for n in range(len(t.body) + 1):
+                points.append(("before_write", n))
+                points.append(("after_write", n))
+        for point, nth in points:
+            hows = HOWS if full else [chk.rng.choice(HOWS), chk.rng.choice(HOWS[:5])]
+            for how in hows:
+                r2 = copy.deepcopy(root)
+                for s2, t2 in r2.tests():
+                    if t2.tid == t.tid:
+                        t2.kill = (point, nth, how)
+                res.append((r2, t.tid))
+    return res
+
+
+def check_C02(chk):
+    import copy
+    drv = setup(chk, ["Properties_C02.v"])
+    cases = []
+    victims = []
+    ntrees = 3 if chk.tier == "quick" else 40
+    kinds_hist = [("pass", 4), ("fail", 2), ("empty", 1), ("xensure", 1), ("skiptest", 2), ("signal", 1), ("exit", 1), ("mixed", 2)]
+    for i in range(ntrees):
+        root = gen_c.gen_tree(chk.rng, max_depth=2, max_tests=6, kinds=kinds_hist, fw_acts=(i % 2 == 0))
+        # make sure some test has a plain body of checks (write points) and one is preceded by a skip_test() test
+        ts = [t for s, t in root.tests()]
+        if ts:
+            ts[-1].skip = False
+            ts[-1].body = gen_c.gen_checks(chk.rng, 3)
+            ts[-1].setup, ts[-1].teardown = [], []
+        for r2, victim in kill_variants(chk, root, full=(i == 0 or chk.tier == "thorough")):
+            rep = chk.rng.choice(["text", "text", "cute", "xml", "libxml", "cdash"])
+            cases.append((r2, rep, "forked"))
+            victims.append(victim)
+    # body-internal boundaries: a scripted death between any two checks, every way of dying
+    for i in range(4 if chk.tier == "quick" else 60):
+        root = gen_c.gen_tree(chk.rng, max_depth=1, max_tests=5, kinds=kinds_hist)
+        ts = [t for s, t in root.tests() if not t.skip]
+        if not ts:
+            continue
+        t = chk.rng.choice(ts)
+        t.body = gen_c.gen_checks(chk.rng, 4)
+        for pos in range(len(t.body) + 1):
+            for how in (HOWS if chk.tier == "thorough" else [chk.rng.choice(HOWS)]):
+                r2 = copy.deepcopy(root)
+                for s2, t2 in r2.tests():
+                    if t2.tid == t.tid:
+                        t2.body.insert(pos, ("die", how[0], how[1]))
+                cases.append((r2, "text", "forked"))
+                victims.append(t.tid)
+    fixed = corner_cases(reporters=("text",), which=("skip-then-die", "die-after-completion"))
+    cases = fixed + cases
+    victims = [1] * (len(fixed) - 1) + [0] + victims
+    runs, mrs = run_cases(drv, cases)
+    correspondence(chk, cases, runs, mrs)
+    # reference runs without the dying test: the neighbours must be credited the same
+    refs = {}
+    ref_cases = []
+    for (root, rep, mode), victim in zip(cases, victims):
+        r3 = copy.deepcopy(root)
+
+        def strip(s):
+            s.children = [c for c in s.children if not (isinstance(c, L.Test) and c.tid == victim)]
+            for c in s.children:
+                if isinstance(c, L.Suite):
+                    strip(c)
+        strip(r3)
+        ref_cases.append((r3, "text", "forked"))
+    if chk.tier == "thorough" or True:
+        uniq = {}
+        for rc in ref_cases:
+            uniq.setdefault(L.node_sexp(rc[0]), rc)
+        keys = list(uniq)
+        rruns, _ = run_cases(drv, [uniq[k] for k in keys])
+        refs = {k: dict(L.log_tdone(r)) for k, r in zip(keys, rruns)}
+    for (root, rep, mode), victim, run, mr, rc in zip(cases, victims, runs, mrs, ref_cases):
+        vname = "t%d" % victim
+        cs = corners(root, mode)
+        sig0 = sorted(cs)[0] if cs else None
+        rp = lambda: replay_of(root, rep, mode, {"dying_test": vname, "stdout": run.stdout[-2000:]})
+        if run.timeout:
+            chk.violation("nontermination", "run with a dying test did not terminate", rp())
+            continue
+        td = dict(L.log_tdone(run))
+        own = mr.own
+        vt = [t for s, t in root.tests() if t.tid == victim][0]
+        dies = own[vname][3] > 0
+        chk.count("victim-dies" if dies else "victim-ends-normally(exit after completion)")
+        if dies:
+            if td.get(vname, (0, 0, 0, 0))[3] != 1:
+                chk.violation(sig0 or "not-one-exception", "dying test %s reported with %s exceptions (credit %s)" % (
+                    vname, td.get(vname, (None,) * 4)[3], td.get(vname)), rp())
+            elif td[vname][:2] != own[vname][:2]:
+                chk.violation(sig0 or "delivered-not-counted", "dying test %s: delivered results %s but credited %s" % (
+                    vname, own[vname][:2], td[vname][:2]), rp())
+            if run.exit == 0:
+                chk.violation(sig0 or "verdict-success", "a test died but the verdict is success", rp())
+        ref = refs.get(L.node_sexp(rc[0]), {})
+        for name, delta in td.items():
+            if name == vname:
+                continue
+            if delta != own[name]:
+                chk.violation(sig0 or "neighbour-own", "test %s credited %s, its own results are %s (test %s died)" % (name, delta, own[name], vname), rp())
+            if name in ref and ref[name] != delta:
+                chk.violation(sig0 or "neighbour-ref", "test %s credited %s but %s when the dying test %s is absent" % (name, delta, ref[name], vname), rp())
+        missing = [n for n in ref if n not in td]
+        if missing:
+            chk.violation(sig0 or "neighbour-not-run", "tests %s did not run" % missing, rp())
+    return chk.finish()
+
+
+# ---------------------------------------------------------------------------------------
+# C04: order independence in forking mode
+# ---------------------------------------------------------------------------------------
+def check_C04(chk):
+    import copy
+    drv = setup(chk, ["Properties_C04.v"])
+    nsets = 6 if chk.tier == "quick" else 120
+    cases, groups = [], []
+    kinds = [("pass", 3), ("fail", 2), ("skiptest", 1), ("signal", 1), ("exit", 1), ("mixed", 4), ("xensure", 1)]
+    for g in range(nsets):
+        n = chk.rng.choice([3, 4, 5])
+        tests = [gen_c.gen_test(chk.rng, i, kinds, fixtures=True, fw_acts=True, poke=True) for i in range(n)]
+        for t in tests:       # make the tests sensitive to leaked state
+            if not t.skip and chk.rng.random() < 0.7:
+                t.body.append(chk.rng.choice([("figscheck", 7), ("call",), ("peek", 0), ("figscheck", 8)]))
+        perms = list(itertools.permutations(range(n)))
+        chk.rng.shuffle(perms)
+        perms = perms[:(4 if chk.tier == "quick" else 24)]
+        variants = [list(p) for p in perms]
+        for _ in range(2 if chk.tier == "quick" else 8):        # subsets
+            k = chk.rng.randrange(1, n + 1)
+            variants.append(chk.rng.sample(range(n), k))
+        for order in variants:
+            root = L.Suite(0)
+            sub = None
+            for j, i in enumerate(order):
+                t = copy.deepcopy(tests[i])
+                root.children.append(t)
+            rep = chk.rng.choice(["text", "cute", "xml"])
+            cases.append((root, rep, "forked"))
+            groups.append(g)
+    runs, mrs = run_cases(drv, cases)
+    correspondence(chk, cases, runs, mrs)
+    seen = {}
+    for (root, rep, mode), g, run, mr in zip(cases, groups, runs, mrs):
+        if run.timeout:
+            chk.violation("nontermination", "run did not terminate", replay_of(root, rep, mode))
+            continue
+        cs = corners(root, mode)
+        sig0 = sorted(cs)[0] if cs else None
+        order = [t.name for s, t in root.tests()]
+        for name, delta in L.log_tdone(run):
+            key = (g, name)
+            if delta != mr.own[name]:
+                chk.violation(sig0 or "depends-on-others", "test %s credited %s in registration order %s; alone it yields %s" % (
+                    name, delta, order, mr.own[name]), replay_of(root, rep, mode, {"stdout": run.stdout[-2000:]}))
+            if key in seen and seen[key][0] != delta:
+                chk.violation(sig0 or "order-dependent", "test %s credited %s in order %s but %s in order %s" % (
+                    name, delta, order, seen[key][0], seen[key][1]), replay_of(root, rep, mode, {"stdout": run.stdout[-2000:]}))
+            seen.setdefault(key, (delta, order))
+    return chk.finish()
+
+
+# ---------------------------------------------------------------------------------------
+# C13: forked, in-process and single-test execution agree
+# ---------------------------------------------------------------------------------------
+def messages_by_test(run):
+    t = L.parse_text(run.stdout)
+    res = {}
+    for crumb, line, msg in t["failures"]:
+        res.setdefault(crumb[-1], []).append((line, msg))
+    return res
+
+
+def check_C13(chk):
+    drv = setup(chk, ["Properties_C13.v"])
+    nseq = 8 if chk.tier == "quick" else 150
+    kinds = [("pass", 3), ("fail", 3), ("skiptest", 1), ("xensure", 1), ("mixed", 4), ("empty", 1)]
+    for g in range(nseq):
+        root = gen_c.gen_tree(chk.rng, max_depth=chk.rng.choice([0, 1, 2]), max_tests=6, kinds=kinds, fw_acts=True, poke=False)
+        for s, t in root.tests():
+            if not t.skip:
+                r = chk.rng.random()
+                if r < 0.5:
+                    t.body.append(chk.rng.choice([("figscheck", 7), ("call",), ("figscheck", 8), ("mode", "loose"), ("figs", 3)]))
+                if r < 0.25:
+                    t.body.insert(0, ("raw", "expect mocked_c"))     # a successfully mocked call of the function
+                    t.body.insert(1, ("raw", "call mocked_c"))       # that other tests call unexpectedly
+        tests = [t for s, t in root.tests()]
+        cases = [(root, "text", "forked"), (root, "text", "inproc")]
+        singles = tests if chk.tier == "thorough" else chk.rng.sample(tests, min(2, len(tests)))
+        for t in singles:
+            cases.append((root, "text", ("single", t.tid)))
+        for extra in (["cute", "xml"] if g % 3 == 0 else []):
+            cases += [(root, extra, "forked"), (root, extra, "inproc")]
+        runs, mrs = run_cases(drv, cases)
+        correspondence(chk, cases, runs, mrs)
+        base = None
+        for (r_, rep, mode), run, mr in zip(cases, runs, mrs):
+            if run.timeout:
+                chk.violation("nontermination", "run did not terminate", replay_of(root, rep, mode))
+                continue
+            chk.count("premises:" + ("inside" if mr.in_premises else "outside"))
+            td = dict(L.log_tdone(run))
+            msgs = messages_by_test(run) if rep == "text" else None
+            for name, delta in td.items():
+                if delta != mr.own[name]:
+                    chk.violation("mode-%s" % (mode if isinstance(mode, str) else "single"),
+                                  "test %s credited %s in mode %s; its own results are %s" % (name, delta, mode, mr.own[name]),
+                                  replay_of(root, rep, mode, {"stdout": run.stdout[-2500:]}))
+            if rep == "text":
+                if base is None:
+                    base = (mode, td, msgs)
+                else:
+                    for name, delta in td.items():
+                        if base[1].get(name) != delta:
+                            chk.violation("modes-differ", "test %s: %s in mode %s, %s in mode %s" % (name, base[1].get(name), base[0], delta, mode),
+                                          replay_of(root, rep, mode, {"stdout": run.stdout[-2500:]}))
+                        if base[2].get(name, []) != msgs.get(name, []):
+                            chk.violation("messages-differ", "test %s: messages %s in mode %s but %s in mode %s" % (
+                                name, base[2].get(name, []), base[0], msgs.get(name, []), mode),
+                                replay_of(root, rep, mode, {"stdout": run.stdout[-2500:]}))
+    return chk.finish()
+
+
+# ---------------------------------------------------------------------------------------
+# C08: setup, body, teardown, tally - once each, in order, in one process
+# ---------------------------------------------------------------------------------------
+PHASE_KINDS = {"ssetup": "ssetup", "setup": "setup", "body": "body", "teardown": "teardown", "steardown": "steardown"}
+
+
+def test_events(run, root):
+    """{test: [(pid, kind)]} from the event log: fixture/body entries and the completed tally"""
+    names = {t.name for s, t in root.tests()}
+    res = {}
+    for pid, k, a in run.log:
+        if k in ("setup", "body", "teardown") and a[0] in names:
+            res.setdefault(a[0], []).append((pid, k))
+        elif k in ("ssetup", "steardown") and len(a) > 1 and a[1] in names:
+            res.setdefault(a[1], []).append((pid, k))
+        elif k == "after_tally" and a[0] in names:
+            res.setdefault(a[0], []).append((pid, "tally"))
+    return res
+
+
+def parent_events(run, root, parent_pid):
+    """suite-level fixtures around sub-suites and suite ends, in the runner's process"""
+    snames = {s.name for s in root.suites()}
+    res = []
+    for pid, k, a in run.log:
+        if k in ("ssetup", "steardown") and len(a) > 1 and a[1] in snames:
+            res.append((pid == parent_pid, "fix", a[0], 0 if k == "ssetup" else 1))
+        elif k == "sdone":
+            res.append((pid == parent_pid, "sdone", a[0], None))
+    return res
+
+
+def check_C08(chk):
+    drv = setup(chk, ["Properties_C08.v"])
+    n = 10 if chk.tier == "quick" else 200
+    kinds = [("pass", 3), ("fail", 3), ("skiptest", 1), ("xensure", 2), ("signal", 1), ("exit", 1), ("mixed", 2), ("empty", 1)]
+    cases = []
+    for i in range(n):
+        root = gen_c.gen_tree(chk.rng, max_depth=3, max_tests=8, kinds=kinds, fw_acts=(i % 4 == 0))
+        for s in root.suites():      # more suite-level fixtures than the default
+            if chk.rng.random() < 0.3:
+                s.has_setup = True
+            if chk.rng.random() < 0.3:
+                s.has_teardown = True
+        # dying in fixtures too
+        for s, t in root.tests():
+            a_s, a_t = L.applicable(s, t)
+            if a_t and chk.rng.random() < 0.1:
+                t.teardown = [("c", 1), ("die", "sig", 11)]
+            if a_s and chk.rng.random() < 0.1:
+                t.setup = [("die", "exit", 3)]
+        rep = chk.rng.choice(L.REPORTERS)
+        cases.append((root, rep, "forked"))
+        # in-process runs end at the first death: use them on trees without deaths
+        if not any(any(a[0] == "die" for a in t.setup + t.body + t.teardown) for s, t in root.tests()):
+            cases.append((root, rep, "inproc"))
+        ts = [t for s, t in root.tests()]
+        if ts:
+            cases.append((root, rep, ("single", chk.rng.choice(ts).tid)))
+    runs, mrs = run_cases(drv, cases)
+    correspondence(chk, cases, runs, mrs)
+    for (root, rep, mode), run, mr in zip(cases, runs, mrs):
+        rp = lambda: replay_of(root, rep, mode, {"log": [list(map(str, x)) for x in run.log][:200]})
+        if run.timeout:
+            chk.violation("nontermination", "run did not terminate", rp())
+            continue
+        verdict, ppid = L.log_verdict(run)
+        if ppid is None:
+            # the runner's own process ended (in-process death); take the pid of the first event
+            ppid = run.log[0][0] if run.log else None
+        ev = test_events(run, root)
+        executed = set(executed_tests(root, mode))
+        tests = {t.name: (s, t) for s, t in root.tests()}
+        died_inproc = False
+        for name, (s, t) in tests.items():
+            got = ev.get(name, [])
+            if name not in executed or t.skip:
+                if got:
+                    chk.violation("ran-code-of-unexecuted", "%s test %s ran %s" % ("xEnsure" if t.skip else "unselected", name, got), rp())
+                continue
+            if mode != "forked" and died_inproc:
+                continue
+            exp = mr.traces[name]
+            kinds_got = [k for pid, k in got]
+            if kinds_got != exp:
+                chk.violation("phase-order", "test %s ran %s; expected %s (suite setup/teardown: %s/%s, context: %s/%s)" % (
+                    name, kinds_got, exp, s.has_setup, s.has_teardown, t.ctx_setup, t.ctx_teardown), rp())
+            pids = {pid for pid, k in got}
+            if len(pids) > 1:
+                chk.violation("several-processes", "test %s: phases ran in processes %s" % (name, sorted(pids)), rp())
+            if pids and mode == "forked" and ppid in pids:
+                chk.violation("ran-in-runner", "forked test %s ran in the runner's own process" % name, rp())
+            if pids and mode != "forked" and pids != {ppid}:
+                chk.violation("not-in-runner", "in-process test %s ran in another process" % name, rp())
+            if mode != "forked" and mr.own[name][3] > 0:
+                died_inproc = True
+        # suite fixtures bracket each sub-suite once, in the runner's process
+        if mr.kind == "fin":
+            pe = parent_events(run, root, ppid)
+            exp = []
+            for e in mr.events:
+                if e[0] == "fix":
+                    exp.append((True, "fix", "s" + e[1], int(e[2])))
+                elif e[0] == "sdone":
+                    exp.append((True, "sdone", "s" + e[1], None))
+            if pe != exp:
+                chk.violation("suite-fixtures", "suite fixture / suite end sequence %s; expected %s" % (pe, exp), rp())
+    return chk.finish()
+
+
+# ---------------------------------------------------------------------------------------
+# C18: channel capacity
+# ---------------------------------------------------------------------------------------
+def channel_capacity(build):
+    """records the result pipe holds: pipe buffer size / sizeof(CgreenMessage), measured with
+    the repository's own definitions"""
+    import subprocess, tempfile
+    src = r'''
+#define _GNU_SOURCE
+#include "%s/src/messaging.c"
+#include <fcntl.h>
+int main(void) { int p[2]; if (pipe(p)) return 1;
+  printf("%%d %%d\n", (int)fcntl(p[1], F_GETPIPE_SZ), (int)sizeof(CgreenMessage)); return 0; }
+''' % vlib.REPO
+    d = vlib.private_dir("cap")
+    try:
+        open(os.path.join(d, "cap.c"), "w").write(src)
+        p = vlib.sh(["gcc", "-w", "-o", "cap", "cap.c"] + build["inc"] + ["-L" + build["libdir"], "-lcgreen"], cwd=d)
+        if p.returncode != 0:
+            raise vlib.Infra("capacity probe failed to build: " + p.stdout[-800:])
+        env = dict(os.environ, LD_LIBRARY_PATH=build["libdir"])
+        out = subprocess.run([os.path.join(d, "cap")], stdout=subprocess.PIPE, text=True, env=env).stdout.split()
+        return int(out[0]) // int(out[1]), int(out[0]), int(out[1])
+    finally:
+        import shutil
+        shutil.rmtree(d, ignore_errors=True)
+
+
+def check_C18(chk):
+    drv = setup(chk, ["Properties_C18.v"])
+    build = vlib.build_repo("hooks")
+    cap, psz, msz = channel_capacity(build)
+    chk.cov["channel"] = {"capacity_records": cap, "pipe_bytes": psz, "record_bytes": msz}
+    ks = [0, 1, cap - 2, cap - 1, cap, cap + 1, 2 * cap, 3 * cap + 7]
+    if chk.tier == "quick":
+        combos = [(k, res, pos, mode) for k in ks for res in (1, 0) for pos in ("middle",) for mode in ("forked",)]
+        combos += [(cap - 1, 1, "first", "forked"), (cap, 0, "last", "forked"), (cap - 1, 1, "middle", "inproc"),
+                   (cap, 1, "middle", "inproc"), (cap - 2, 0, "middle", "inproc")]
+    else:
+        combos = [(k, res, pos, mode) for k in ks for res in (1, 0) for pos in ("first", "middle", "last")
+                  for mode in ("forked", "inproc")]
+    cases, meta = [], []
+    for k, res, pos, mode in combos:
+        big = L.Test(1, body=[("c", res)] * k)
+        before = L.Test(0, body=[("c", 1), ("c", 1), ("c", 0)])
+        after = L.Test(2, body=[("c", 1)] * 5)
+        order = {"first": [big, before, after], "middle": [before, big, after], "last": [before, after, big]}[pos]
+        if chk.rng.random() < 0.5:
+            root = L.Suite(0, children=[L.Suite(1, children=order)])
+        else:
+            root = L.Suite(0, children=order)
+        cases.append((root, "text", mode))
+        meta.append((k, res, pos))
+    lines = [L.model_case(r, rep, m, cap) for r, rep, m in cases]
+    mrs = [L.ModelResult(l) for l in vlib.run_model("runner", lines)]
+    with ThreadPoolExecutor(vlib.NPROC) as ex:
+        runs = list(ex.map(lambda c: L.run_impl(drv, c[0], c[1], c[2], timeout=120), cases))
+    for (root, rep, mode), (k, res, pos), run, mr in zip(cases, meta, runs, mrs):
+        account(chk, root, rep, mode)
+        chk.count("checks:%s" % ("cap%+d" % (k - cap) if abs(k - cap) <= 2 else str(k)))
+        overflow = k + 1 > cap
+        dis = cmp_c.model_vs_impl(root, rep, mode, run, mr, overflow=overflow)
+        chk.cov["disagreements_checked"] += 1
+        rp = lambda: {"checks_in_big_test": k, "result_of_each": res, "position": pos, "mode": mode, "capacity": cap,
+                      "exit": run.exit, "tdone": L.log_tdone(run), "stdout_tail": run.stdout[-1500:],
+                      "how": "scenario: tests t0 (pass,pass,fail), t1 (k checks), t2 (5 passes) in the given order; run harness/scn_driver"}
+        if dis:
+            chk.disagreement("; ".join(dis)[:1200], rp())
+        chk.sample({"k": k, "result": res, "position": pos, "mode": mode, "exit": run.exit, "credits": L.log_tdone(run)}, limit=5)
+        if run.timeout:
+            chk.violation("nontermination", "run with %d checks did not terminate" % k, rp())
+            continue
+        if mode == "inproc" and overflow:
+            if run.exit == 0:
+                chk.violation("inproc-overflow-success", "in-process run overflowed the channel and still exited 0", rp())
+            continue
+        td = dict(L.log_tdone(run))
+        big = td.get("t1")
+        if big is None:
+            chk.violation("big-test-missing", "the test with %d checks was not reported" % k, rp())
+            continue
+        counted = big[0] + big[1]
+        if big[3] == 0:
+            if (big[0], big[1]) != ((k, 0) if res else (0, k)):
+                chk.violation("lost-or-duplicated", "%d checks executed, %s counted, no exception" % (k, big[:2]), rp())
+        else:
+            if run.exit == 0:
+                chk.violation("exception-but-success", "the test is an exception but the verdict is success", rp())
+            if counted > k or (res and big[1]) or (not res and big[0]):
+                chk.violation("miscounted", "%d checks executed but %s counted" % (k, big[:2]), rp())
+            if not overflow:
+                chk.violation("spurious-exception", "%d checks (+ marker) fit the channel of %d records but the test is an exception" % (k, cap), rp())
+        if td.get("t0") not in (None, (2, 1, 0, 0)) or td.get("t2") not in (None, (5, 0, 0, 0)):
+            chk.violation("misplaced", "neighbours credited %s / %s instead of (2,1,0,0) / (5,0,0,0)" % (td.get("t0"), td.get("t2")), rp())
+        if "t0" not in td or "t2" not in td:
+            chk.violation("neighbour-missing", "a neighbour of the big test was not reported", rp())
+        if (run.exit != 0) != True:     # t0 always has a failure
+            chk.violation("verdict", "a check failed but the verdict is success", rp())
+    return chk.finish()
